@@ -21,54 +21,65 @@ GEN = "generator::token_based::TokenBasedLuaGenerator"
 
 
 def keep(R, ctx):
+    """Transfer table of the two token mutators by finite-domain evaluation (sa/peval.py)."""
+    from .. import peval
+    from ..peval import Enum, Struct, UNKNOWN
     rid = "C04.keep"
     lib = ctx.lib
-    R.rule(rid, "Token::replace_with_content maps Position::{LineNumberReference,LineNumber} to LineNumber carrying the *same* "
-                "line_number binding and Any to Any; Token::shift_token_line writes line_number for both numbered variants")
-    fn = lib.fn("nodes::token::Token::replace_with_content")
+    R.rule(rid, "Token::replace_with_content and Token::shift_token_line, evaluated from their typed tree on a token of every Position variant: "
+                "replacing the content of a token that records a line (LineNumberReference, LineNumber) yields a position recording the SAME "
+                "line with the new content, Any stays line-less; shifting by +5 / -3 adds exactly that amount to the recorded line of both "
+                "numbered variants and leaves Any alone")
+    TOK, TRV = "nodes::token::Token", "nodes::token::Trivia"
+    pa = lib.adts.get(POSITION)
+    if not R.require(rid, "anchor:Position", pa is not None and {v["name"] for v in pa["variants"]} >= {"LineNumberReference", "LineNumber", "Any"}, "", "Position variants"):
+        return
+    fields = {v["name"]: [f["name"] for f in v["fields"]] for v in pa["variants"]}
+    R.require(rid, "anchor:Position-fields", "line_number" in fields["LineNumberReference"] and "line_number" in fields["LineNumber"], ctx.adt_where(POSITION), str(fields))
+
+    def positions():
+        out = {}
+        for v, fs in fields.items():
+            vals = {}
+            for f in fs:
+                vals[f] = 7 if f == "line_number" else (1 if f == "start" else (4 if f == "end" else ("old" if f == "content" else UNKNOWN)))
+            out[v] = Enum(POSITION, v, vals)
+        return out
+
+    def token(pos):
+        return Struct(TOK, {"position": pos, "leading_trivia": [], "trailing_trivia": []})
+
+    def run_(fname, pos, *extra):
+        fn = lib.fn("%s::%s" % (TOK, fname))
+        t = token(pos)
+        pe = peval.PEval(lib, ctx.an)
+        try:
+            pe.call_fn(fn, [t] + list(extra))
+        except peval.OutOfFuel:
+            return None, ["no termination"]
+        return t.fields.get("position"), pe.unknown_reasons
+    fn = lib.fn(TOK + "::replace_with_content")
     if R.require(rid, "anchor:replace_with_content", fn is not None, "", "not found"):
-        table = {}
-        for n in thir.walk(thir.body_of(fn)):
-            if n.get("k") == "Match":
-                for arm in n["arms"]:
-                    vs = {v for a, v in thir.pat_variants(arm["pat"]) if a == POSITION}
-                    if not vs:
-                        continue
-                    # the arm result: which Position variant is constructed, and does line_number come from the pattern binding
-                    built = [x for x in thir.walk(arm["body"]) if x.get("k") == "Adt" and x.get("adt") == POSITION]
-                    bound = {name for _, name, _, _ in thir.pat_bindings(arm["pat"])}
-                    for v in vs:
-                        if built:
-                            b = built[0]
-                            line_src = None
-                            for fe in b["fields"]:
-                                if fe["f"] == "line_number":
-                                    names = {x["name"] for x in thir.walk(fe["e"]) if x.get("k") == "Var"}
-                                    line_src = names
-                            table[v] = (b.get("variant"), line_src, bound)
-        for v in ("LineNumberReference", "LineNumber"):
-            got = table.get(v)
-            ok = bool(got) and got[0] == "LineNumber" and got[1] is not None and "line_number" in got[1] and "line_number" in got[2]
-            R.ob(rid, "replace_with_content|" + v, ok, ctx.where(fn), "Position::%s -> %s" % (v, got[:2] if got else "unhandled"))
-        got = table.get("Any")
-        R.ob(rid, "replace_with_content|Any", bool(got) and got[0] == "Any", ctx.where(fn), "Position::Any -> %s" % (got[0] if got else "unhandled"))
-    fn = lib.fn("nodes::token::Token::shift_token_line")
+        for v, pos in positions().items():
+            after, why = run_("replace_with_content", pos, "new")
+            numbered = "line_number" in fields[v]
+            if numbered:
+                ok = isinstance(after, Enum) and after.fields.get("line_number") == 7 and after.fields.get("content") == "new"
+            else:
+                ok = isinstance(after, Enum) and "line_number" not in after.fields and after.fields.get("content") == "new"
+            R.ob(rid, "replace_with_content|" + v, ok, ctx.where(fn), "Position::%s (line 7) -> %s%s" % (v, after, "" if ok or not why else " (%s)" % why[:2]))
+    fn = lib.fn(TOK + "::shift_token_line")
     if R.require(rid, "anchor:shift_token_line", fn is not None, "", "not found"):
-        shifted = set()
-        for n in thir.walk(thir.body_of(fn)):
-            if n.get("k") == "Match":
-                for arm in n["arms"]:
-                    vs = {v for a, v in thir.pat_variants(arm["pat"]) if a == POSITION}
-                    writes = [x for x in thir.walk(arm["body"]) if x.get("k") in ("Assign", "AssignOp")]
-                    names = set()
-                    for w in writes:
-                        for x in thir.walk(w["l"]):
-                            if x.get("k") == "Var":
-                                names.add(x["name"])
-                    if "line_number" in names:
-                        shifted |= vs
-        for v in ("LineNumberReference", "LineNumber"):
-            R.ob(rid, "shift_token_line|" + v, v in shifted, ctx.where(fn), "line of Position::%s %s" % (v, "shifted" if v in shifted else "NOT shifted"))
+        for v, pos in positions().items():
+            for amount in (5, -3):
+                import copy
+                after, why = run_("shift_token_line", copy.deepcopy(pos), amount)
+                if "line_number" in fields[v]:
+                    ok = isinstance(after, Enum) and after.variant == v and after.fields.get("line_number") == 7 + amount
+                else:
+                    ok = isinstance(after, Enum) and after == pos
+                R.ob(rid, "shift_token_line|%s|%+d" % (v, amount), ok, ctx.where(fn),
+                     "line of Position::%s after shifting 7 by %+d: %s%s" % (v, amount, after.fields.get("line_number", "none") if isinstance(after, Enum) else after, "" if ok or not why else " (%s)" % why[:2]))
 
 
 def bundle_insert(R, ctx):
@@ -187,37 +198,60 @@ def count(R, ctx):
 
 
 def pad(R, ctx):
+    from .. import interproc
     rid = "C04.pad"
     lib = ctx.lib
-    R.rule(rid, "write_token_options: a loop guarded by `line_number > current_line` (line from Token::get_line_number) pushes newlines, "
-                "and it precedes the write of the token content")
+    R.rule(rid, "write_token_options (local helpers expanded in place): a loop guarded by `line_number > current_line` (line from "
+                "Token::get_line_number) pushes newlines, and it precedes the write of the token content")
     fn = lib.fn("generator::token_based::TokenBasedLuaGenerator::write_token_options")
     if not R.require(rid, "anchor:write_token_options", fn is not None, "", "not found"):
         return
-    a = ctx.an.fa(fn["path"])
-    loops = [n for n in thir.walk(thir.body_of(fn)) if n.get("k") == "Loop"]
-    pad_loop = None
-    for lp in loops:
-        conds = [x for x in thir.walk(lp) if x.get("k") == "If" or x.get("k") == "Match"]
-        has_cmp = False
-        for x in thir.walk(lp):
-            if x.get("k") == "Binary" and x.get("op") in ("Gt", "Lt", "Ge", "Le"):
-                lv = {y.get("f") for y in thir.walk(x) if y.get("k") == "Field"}
-                srcs = [y.get("fname") for side in (x["l"], x["r"]) for y in a.source_calls(side)]
-                if "current_line" in lv and "get_line_number" in srcs:
-                    # direction: must pad while token line is greater than the current line
-                    gt_ok = (x["op"] == "Gt" and any(y.get("f") == "current_line" for y in thir.walk(x["r"]))) or \
-                            (x["op"] == "Lt" and any(y.get("f") == "current_line" for y in thir.walk(x["l"])))
-                    has_cmp = gt_ok
-        pushes_nl = any(x.get("k") == "Call" and x.get("fname") == "push" and x["args"][1].get("v") == "'\\n'" for x in thir.walk(lp))
-        if has_cmp and pushes_nl:
-            pad_loop = lp
-    R.ob(rid, "write_token_options|pad-loop", pad_loop is not None, ctx.where(fn), "padding loop `while line_number > current_line { push('\\n') }` %s" % ("found" if pad_loop is not None else "NOT found"))
-    if pad_loop is not None:
-        order = [id(n) for n in thir.walk(thir.body_of(fn))]
-        content_writes = [c for c in thir.calls(fn) if c.get("fname") == "push_str" and any(y.get("fname") == "read" for y in a.source_calls(c["args"][1]))]
-        ok = bool(content_writes) and all(order.index(id(pad_loop)) < order.index(id(c)) for c in content_writes)
-        R.ob(rid, "write_token_options|pad-before-content", ok, ctx.where(fn), "padding precedes the content write: %s" % ok)
+
+    def srcs(arg, fa):
+        # `read` only counts when it is Token::read (trivia have a read of their own)
+        return {y.get("fname") for y in fa.source_calls(arg) if y.get("fname") != "read" or "Token" in (callee_of(y) or y.get("fn") or "")}
+
+    def derive(arg, fa, tainted):
+        # two facts are tracked at once: "is the token's recorded line" / "is the token's content"
+        s_ = srcs(arg, fa)
+        return bool({"get_line_number", "read"} & s_) or any(("#param", t) in fa.origins(arg) for t in tainted)
+
+    def line_side(x, fa, tainted):
+        return "get_line_number" in srcs(x, fa) or any(("#param", t) in fa.origins(x) for t in tainted)
+
+    def classify(n, fa, tainted):
+        k = n.get("k")
+        if k == "Loop":
+            has_cmp = False
+            for x in thir.walk(n):
+                if x.get("k") == "Binary" and x.get("op") in ("Gt", "Lt", "Ge", "Le"):
+                    cur_l = any(y.get("f") == "current_line" for y in thir.walk(x["l"]) if y.get("k") == "Field")
+                    cur_r = any(y.get("f") == "current_line" for y in thir.walk(x["r"]) if y.get("k") == "Field")
+                    # direction: pad while the token line is greater than the current line
+                    if x["op"] == "Gt" and cur_r and line_side(x["l"], fa, tainted):
+                        has_cmp = True
+                    if x["op"] == "Lt" and cur_l and line_side(x["r"], fa, tainted):
+                        has_cmp = True
+            nl = False
+            for f2, c in interproc.scope_calls(lib, {"path": None, "thir": {"body": n}, "file": None}, depth=0) if False else []:
+                pass
+            for x in thir.walk(n):
+                if x.get("k") == "Call" and x.get("fname") == "push" and len(x["args"]) > 1 and x["args"][1].get("v") == "'\\n'":
+                    nl = True
+                if x.get("k") == "Call":
+                    q = lib.fn(callee_of(x) or "")
+                    if q is not None and thir.body_of(q) and any(y.get("k") == "Call" and y.get("fname") == "push" and len(y["args"]) > 1 and y["args"][1].get("v") == "'\\n'" for y in thir.walk(thir.body_of(q))):
+                        nl = True
+            if has_cmp and nl:
+                return "pad"
+        if k == "Call" and n.get("fname") == "push_str" and any("read" in srcs(a_, fa) or any(("#param", t) in fa.origins(a_) for t in tainted) for a_ in n["args"][1:]):
+            return "content"
+        return None
+    ev = [lab for lab, f, n in interproc.linear_events(ctx, fn, classify, derive)]
+    R.ob(rid, "write_token_options|pad-loop", "pad" in ev, ctx.where(fn), "padding loop `while line_number > current_line { push('\\n') }` %s" % ("found" if "pad" in ev else "NOT found"))
+    if "pad" in ev:
+        ok = "content" in ev and ev.index("pad") < ev.index("content")
+        R.ob(rid, "write_token_options|pad-before-content", ok, ctx.where(fn), "padding precedes the content write (events %s): %s" % (ev, ok))
 
 
 def run(R, ctx):
